@@ -1,34 +1,68 @@
 (* Correspondence for C01: run the model of tensorly/base.py (and of the NumPy primitives it
-   relies on) on the same inputs as the implementation and compare bit for bit. *)
-From Coq Require Import List Arith ZArith Bool.
-From TLV Require Import Base.Shape Base.PyList Base.Tensor Model.Base Corr.Common.
+   relies on) on the same inputs as the implementation and compare bit for bit.
+   Modes are signed (Z) as in Python; tensors of the generated cases carry the labels 0..n-1. *)
+From Coq Require Import List Arith ZArith Bool Uint63.
+From TLV Require Import Base.Shape Base.PyList Base.Tensor Model.Base Model.BaseExt Corr.Common.
 Import ListNotations.
 
+(* Case literals: tensor data are packed, w bits per entry and 60/w entries per primitive 63-bit
+   integer (lowest entry first); elaborating one primitive integer is far cheaper than a list of Z
+   numerals.  `IAr s` is the tensor arange(prod s).reshape(s). *)
+Fixpoint chop (fuel : nat) (w mask x : int) : list Z :=
+  match fuel with
+  | O => []
+  | S f => Uint63.to_Z (Uint63.land x mask) :: chop f w mask (Uint63.lsr x w)
+  end.
+Definition unpack (w n : nat) (l : list int) : list Z :=
+  let wi := Uint63.of_Z (Z.of_nat w) in
+  let mask := Uint63.sub (Uint63.lsl 1%uint63 wi) 1%uint63 in
+  firstn n (flat_map (chop (60 / w) wi mask) l).
+
+Inductive lit :=
+| IAr (s : list nat)
+| IPk (s : list nat) (w : nat) (l : list int).
+
+Definition dec (i : lit) : tensor Z :=
+  match i with
+  | IAr s => mk s (map Z.of_nat (seq 0 (prod s)))
+  | IPk s w l => mk s (unpack w (prod s) l)
+  end.
+
 Inductive op :=
-| OVec | OUnvec (s : list nat) | OUnfold (m : nat) | OFold (m : nat) (s : list nat)
-| OPUnfold (m sb se : nat) (rav : bool) | OPFold (m : nat) (s : list nat) (sb se : nat)
+| OVec | OUnvec (s : list nat) | OUnfold (m : Z) | OFold (m : Z) (s : list nat)
+| OPUnfold (m : Z) (sb se : nat) (rav : bool) | OPFold (m : Z) (s : list nat) (sb se : nat)
 | OPVec (sb se : nat) | OPUnvec (s : list nat) (sb se : nat)
-| OMat (rows : list nat) (cols : option (list nat))
-(* NumPy primitives, validating Base/Tensor.v *)
-| OMove (a b : nat) | OTrans (p : list nat) | OReshape (spec : list (option nat)).
+| OMat (rows : list Z) (cols : option (list Z))
+(* NumPy primitives as dispatched by the backend, validating Base/Tensor.v; OMoveG is the generic
+   Backend.moveaxis of tensorly/backend/core.py *)
+| OMove (a b : Z) | OMoveG (a b : Z) | OTrans (p : list nat) | OReshape (spec : list (option nat)).
 
 Definition run (o : op) (t : tensor Z) : res (tensor Z) :=
   match o with
   | OVec => tensor_to_vec t
   | OUnvec s => vec_to_tensor t s
-  | OUnfold m => unfold 0%Z t m
-  | OFold m s => fold 0%Z t m s
-  | OPUnfold m sb se rav => partial_unfold 0%Z t m sb se rav
-  | OPFold m s sb se => partial_fold 0%Z t m s sb se
+  | OUnfold m => unfold_z 0%Z t m
+  | OFold m s => fold_z 0%Z t m s
+  | OPUnfold m sb se rav => partial_unfold_z 0%Z t m sb se rav
+  | OPFold m s sb se => partial_fold_z 0%Z t m s sb se
   | OPVec sb se => partial_tensor_to_vec 0%Z t sb se
   | OPUnvec s sb se => partial_vec_to_tensor 0%Z t s sb se
-  | OMat rows cols => matricize 0%Z t rows cols
-  | OMove a b => if (a <? ndim t) && (b <? ndim t) then Ok (moveaxis 0%Z t a b) else Err
+  | OMat rows cols => matricize_z 0%Z t rows cols
+  | OMove a b => moveaxis_z 0%Z t a b
+  | OMoveG a b => moveaxis_generic_z 0%Z t a b
   | OTrans p => if is_permb (ndim t) p then Ok (transpose 0%Z p t) else Err
   | OReshape spec => reshape_spec spec t
   end.
 
-Definition case := (nat * op * tensor Z * res (tensor Z))%type.
-Definition agree (c : case) : bool := let '(_, o, t, expected) := c in res_eqb zt_eqb (run o t) expected.
-Definition ident (c : case) : nat := let '(i, _, _, _) := c in i.
+Definition case := (int * op * lit * res lit)%type.
+Definition agree (c : case) : bool :=
+  let '(_, o, t, expected) := c in
+  res_eqb zt_eqb (run o (dec t)) (match expected with Ok e => Ok (dec e) | Err => Err end).
+Definition ident (c : case) : nat := let '(i, _, _, _) := c in Z.to_nat (Uint63.to_Z i).
 Definition failing := failing_ids agree ident.
+
+(* the decoder on a hand-made literal: 7 entries, 10 bits each, 6 per integer *)
+Example unpack_example :
+  unpack 10 7 [(5 + 1024 * (1023 + 1024 * (0 + 1024 * (7 + 1024 * (8 + 1024 * 9)))))%uint63; 3%uint63]
+  = [5; 1023; 0; 7; 8; 9; 3]%Z.
+Proof. vm_compute. reflexivity. Qed.
